@@ -62,7 +62,7 @@ def prefix_events(name, s, kind):
         return [E.ev(name, 1, o)]
     if kind == 'stray-end':
         return [E.ev(name, 2, o)]
-    if kind == 'other-thread-open':
+    if kind in ('other-thread-open', 'other-thread-crossing'):
         return [E.ev(name, 1, o, tid=2)]
     if kind == 'other-call-open':
         return [E.ev('BSC_getpid', 1, o)]
@@ -70,20 +70,30 @@ def prefix_events(name, s, kind):
 
 
 def render(name, s, e, nlook, prefix=None):
-    p = TracesParser(E.codes(), {}, {})
+    p = E.new_traces_parser(prefilled=prefix in ('other-thread-open', 'other-thread-crossing'))
     _, e2 = D.in_domain(name, 'se', s, e, 1)
     # keep the START words exactly as enumerated; only END enum positions are forced in-domain
     pre = prefix_events(name, s, prefix)
     between = []
     if prefix == 'long-window':
-        # 700 stand-alone records of the same thread (with words that are nobody's argument) between START and END
-        between = [E.ev('MACH_vm_page_release' if i % 2 else 'MACH_WAIT', 0, OTHER) for i in range(700)]
+        # 5000 stand-alone records of the same thread (with words that are nobody's argument) between START and END
+        between = [E.ev('MACH_vm_page_release' if i % 2 else 'MACH_WAIT', 0, OTHER) for i in range(5000)]
     evs = pre + [E.ev(name, 1, s)] + between + lookups(nlook) + [E.ev(name, 2, e2)]
+    if prefix == 'other-thread-crossing':
+        # the other thread STARTs after ours and ENDs after ours: A.START B.START A.END B.END
+        o, _ = D.in_domain(name, 'se', OTHER, (0, 0, 0, 0), 1)
+        if name in ('BSC_getsockopt', 'BSC_setsockopt'):
+            o = (o[0], 6, o[2], o[3])
+        evs = [E.ev(name, 1, s), E.ev(name, 1, o, tid=2)] + lookups(nlook) + [E.ev(name, 2, e2), E.ev(name, 2, (0, 0x9e9e, 0, 0), tid=2)]
+        pre = []
+        judged_end = len(evs) - 2
+    else:
+        judged_end = len(evs) - 1
     out = [t for t in p.feed_generator(E.restamp(evs))]
-    mine = [t for t in out if t.ktraces[0].eventid == evs[len(pre)].eventid and t.ktraces[-1].timestamp == len(evs) - 1]
+    mine = [t for t in out if t.ktraces[0].eventid == evs[len(pre)].eventid and t.ktraces[-1].timestamp == judged_end]
     if len(mine) != 1:
         return None, f'{len(mine)} traces for one START/END pair'
-    return str(mine[0]), None
+    return E.stable_str(mine[0]), None
 
 
 def judge(name, s, nlook, prefix=None):
@@ -123,8 +133,8 @@ class C09(Check):
             'enum-valued positions (frozen table) over every member, ioctl request over Darwin _IOC words - x 3 END tuples '
             '(success, failure, other values) with 0 lookups, every point with <=2 non-default words with 2 nested lookups, and every '
             'point with <=1 non-default word preceded by {an earlier START of the same call whose END was lost, a stray END, the same '
-            'call still open on another thread, another call still open on the same thread} carrying words that never equal an '
-            'enumerated one; and one window per decoder with 700 stand-alone same-thread records between START and END. '
+            'call still open on another thread (parser built with a populated thread map; also crossing: A.START B.START A.END B.END), another call still open on the same thread} carrying words that never equal an '
+            'enumerated one; and one window per decoder with 5000 stand-alone same-thread records between START and END. '
             'Oracle: every integer-literal token at position k is one of the renderings {u64, i64, u32, i32 decimal; u64, u32 hex} of '
             'START word k in every run; no numeric token beyond position 3; call part identical across END tuples. Distinct by '
             'construction; non-trivial = the rendering is call-style and shows at least one numeric token.')
@@ -161,7 +171,7 @@ class C09(Check):
             for s in deviation_bounded(doms, 1):
                 if name in ('BSC_getsockopt', 'BSC_setsockopt') and s[1] in (1, 0xffff):
                     continue
-                for prefix in ('stale-start', 'stray-end', 'other-thread-open', 'other-call-open') + (('long-window',) if s == tuple(d[0] for d in doms) else ()):
+                for prefix in ('stale-start', 'stray-end', 'other-thread-open', 'other-thread-crossing', 'other-call-open') + (('long-window',) if s == tuple(d[0] for d in doms) else ()):
                     bad, call = judge(name, s, 0, prefix)
                     self._acc(acc, name, s, 0, (bad[0] + ':after-' + prefix, bad[1]) if bad else None, call, prefix)
 
